@@ -7,6 +7,7 @@
 -/
 import Frost.Proofs.Wire
 import Frost.Proofs.WireRef
+import Frost.Model.Json
 
 set_option linter.unusedSectionVars false
 
@@ -298,5 +299,27 @@ example : decU16 [0x80, 0x00, 7] = some (0, [7]) := by decide      -- non-minima
 example : decU16 [0xff, 0xff, 0x04] = none := by decide            -- … values that do not fit are not
 example : decMinSigners [2, 5] = (none, [2, 5]) := by decide       -- lenient trailing field
 example : decHeader [0, 1, 2, 3, 4] [1, 1, 2, 3, 4, 9] = none := by decide
+
+end Frost.C12
+
+/-! ## 6. the self-describing form (encoder only)
+
+  `Frost.Model.Json` is the JSON text `serde_json` writes for every wire type; it is compared
+  byte-for-byte with the real output on every run.  Two facts about it that a reader relies on:
+  the text always starts with the header naming this ciphersuite, and a value that cannot be
+  encoded in binary (an identity element) cannot be encoded in JSON either. -/
+
+namespace Frost.C12
+open Frost
+
+theorem json_keyPackage_none_iff {F E : Type} (S : Suite F E) (k : KeyPackage F E) :
+    Json.keyPackage S k = none ↔ S.encElem k.vshare = none ∨ S.encElem k.vk = none := by
+  unfold Json.keyPackage Json.elem
+  cases h1 : S.encElem k.vshare <;> cases h2 : S.encElem k.vk <;> simp
+
+theorem json_commitments_none_iff {F E : Type} (S : Suite F E) (c : SigningCommitments E) :
+    Json.commitments S c = none ↔ S.encElem c.hid = none ∨ S.encElem c.bnd = none := by
+  unfold Json.commitments Json.elem
+  cases h1 : S.encElem c.hid <;> cases h2 : S.encElem c.bnd <;> simp
 
 end Frost.C12
